@@ -236,7 +236,7 @@ def replay(ctx, rep):
         m = Chem.RenumberAtoms(m, list(reversed(range(m.GetNumAtoms()))))
     data = {'frags': [codes(c['text'])], 'mols': [molio.export(Chem.AddHs(m))], 'pairs': [[1, 1]]}
     outs = ctx.tlc_shards('MC_Match', 'MC_Match.cfg', nshards=1, env={'VIN': _vin(ctx, data)})
-    spec = outs[0]['res']['1']
+    spec = (outs[0]['res'][0] if isinstance(outs[0]['res'], list) else outs[0]['res']['1'])
     if kind == 'error':
         if spec['ok']:
             ctx.violation('unreadable:%r' % c['text'], 'still unreadable', c)
